@@ -245,6 +245,12 @@ func checkMain(cfg *Config) int {
 
 // ---------------------------------------------------------------------------------------------
 
+// propKinds restricts a property's check to obligation kinds (nil = all kinds)
+var propKinds = map[string]map[string]bool{
+	"C07": {"index": true, "slice": true, "nil": true, "div0": true, "typeassert": true, "panic": true, "overflow": true, "writable": true,
+		"closed": true, "nonblocking": true, "pre@callsite": true, "loop-init": true, "loop-step": true, "decreases": true, "crash": true},
+}
+
 type oblSummary struct {
 	Name      string
 	Kind      string
@@ -334,6 +340,11 @@ func report(cfg *Config, ld *Loaded, db *SpecDB, results []*UnitResult, loadS, g
 	canaryBad := 0
 	for _, name := range order {
 		s := byName[name]
+		if ks := propKinds[cfg.Prop]; ks != nil && len(cfg.Funcs) == 0 && !ks[s.Kind] {
+			// sweep properties (no panic): only the safety obligations of the tagged units belong to the property; their
+			// functional postconditions are decided under the properties they are written for
+			continue
+		}
 		if s.Canary {
 			// a canary must fail on at least one path
 			if len(s.Failed) == 0 {
